@@ -1,5 +1,5 @@
 (* The created-annotation recogniser of Model/Pack.v against RFC 3339 section 5.6. *)
-From Oras Require Import Base.Prelude Base.Regex Generated.GC19 Model.Pack Proofs.Pack.
+From Oras Require Import Base.Prelude Base.Regex Base.StrCheck Generated.GC19 Model.Pack Proofs.Pack.
 
 Definition dig (c : N) : Prop := is_digit c = true.
 Definition two (a c : N) : N := dval a * 10 + dval c.
@@ -231,3 +231,20 @@ Theorem malformed_created_no_manifest (marshal : manifest -> str) (H : str -> st
 Proof.
   intros G N P. eapply bad_created_no_manifest; eauto. now apply malformed_refused.
 Qed.
+
+(* ---------- tie to pack.go validateRFC3339 (translated by gosrc2v kind "strictchecks") ---------- *)
+
+(* The code is: time.Parse(time.RFC3339, v), then reject a ':' at offset 12 (one-digit hour), a ','
+   at offset 19 (comma before the fraction) and, when the last byte is not 'Z', an offset hour
+   >= 24 or an offset minute >= 60.  [rfc3339_gen false] mirrors time.Parse for that layout and
+   [rfc3339_gen true] differs from it exactly by these three restrictions (two-digit hour, '.' only,
+   offsets <= 23:59).  The lemma pins the translated source to that reading: changing a strict
+   check in pack.go changes the generated term and breaks it. *)
+Definition expected_strict_checks : list (scond * list scond) :=
+  [ (CByte (FromStart 12) OpEq 58, [CTrue]);
+    (CByte (FromStart 19) OpEq 44, [CTrue]);
+    (CByte (FromEnd 1) OpNe 90, [CNum2 (FromEnd 5) OpGe 24; CNum2 (FromEnd 2) OpGe 60]) ].
+
+Lemma strict_checks_as_modelled :
+  validateRFC3339_checks = expected_strict_checks /\ validateRFC3339_checks_layout = b "time.RFC3339".
+Proof. split; reflexivity. Qed.
